@@ -257,6 +257,18 @@ func rulePublication(c *core.Ctx) {
 		info := fn.Info()
 		looks := cacheLookups(g, "cache")
 		stores := extractorStores(g, "cache")
+		// the hit test and the publication form one critical section: a hit
+		// test made through a function that takes the lock itself (cacheGet)
+		// ends its critical section before the store begins, so that two
+		// racing decoders both miss and both publish
+		for _, cv := range callVertices(g, "pdf.(*Extractor).cacheGet") {
+			o.Count(1)
+			for _, st := range stores {
+				if g.PathExists(cv.V, st.V, nil) {
+					o.FailAt(fn.Site(cv.Call, ""), "%s: the hit test is made in a critical section of its own (cacheGet locks and unlocks), the publication at %s in another: two goroutines decoding the same object can both miss and publish different values", c.Prog.Pos(cv.Call.Pos()), c.Prog.Pos(st.Stmt.Pos()))
+				}
+			}
+		}
 		if len(looks) != 1 || len(stores) != 1 {
 			o.Count(1)
 			o.Unrec("expected one lookup and one store, found %d/%d", len(looks), len(stores))
